@@ -108,6 +108,42 @@ func (e *Engine) registerIntrinsics() {
 			valueRefs(c.Args[0], mark)
 			return one(c.St, BoolC(found))
 		}
+		e.intr[pp+".ndShares"] = func(e *Engine, c *CallCtx) []Outcome {
+			// some heap object is reachable from both roots (nil-ness ignored: over-approximate;
+			// the native run decides)
+			reach := func(root Value) map[ObjID]bool {
+				seen := map[ObjID]bool{}
+				var visit func(id ObjID)
+				mark := func(id ObjID) {
+					if !seen[id] {
+						seen[id] = true
+						visit(id)
+					}
+				}
+				visit = func(id ObjID) {
+					if o, ok := c.St.heap[id]; ok {
+						objectRefs(o, mark)
+					}
+				}
+				valueRefs(root, mark)
+				return seen
+			}
+			ra, rb := reach(c.Args[0]), reach(c.Args[1])
+			for id := range ra {
+				if rb[id] {
+					if o, ok := c.St.heap[id]; ok && o.Kind == KCell {
+						if _, isOpaque := o.Val.(VOpaque); isOpaque {
+							continue // modelled library object (compiled pattern, type descriptor): immutable
+						}
+						if _, isErr := o.Val.(VErr); isErr {
+							continue // sentinel errors are shared by design and immutable
+						}
+					}
+					return one(c.St, True)
+				}
+			}
+			return one(c.St, False)
+		}
 		e.intr[pp+".ndFakeLenInts"] = func(e *Engine, c *CallCtx) []Outcome {
 			// a []int of symbolic length whose elements are never read (see ndAtFirstLoop)
 			n := c.Args[0].(*Term)
